@@ -69,6 +69,17 @@ Judge(a, o, w, res, o2, w2) ==
          \cup (IF res # "ok" /\ Norm(o2) # Norm(o) THEN {"C19:failed-decode-modified-the-destination"} ELSE {})
     [] OTHER -> {}     \* edits and rewrites are environment steps: their effect is simply observed
 
+\* the Sig_structure over the observed object: every byte string handed to a key must be it (so that equal terms mean equal bytes)
+ExtBytes(e) == IF e = "none" THEN <<>> ELSE <<1, 2>>
+PayBytes(p) == CASE p = "p1" -> <<1>> [] p = "p2" -> <<2>> [] OTHER -> <<>>
+BodyProtItem == ParseAll(<<88, 3, 161, 3, 0>>).item
+Expected(post, a, payloadName) ==
+  IF ObjKind = "sig" THEN SigStructure(BodyProtItem, LayerProtItem(post), ExtBytes(a.ext), PayBytes(payloadName))
+  ELSE Sig1Structure(LayerProtItem(post), ExtBytes(a.ext), IF post.payload = NilPayload THEN <<>> ELSE post.payload)
+StructFails(a, obs, payloadName) ==
+  LET keyCalls == SelectSeq(obs.calls, LAMBDA x : x.call \in {"Sign", "Verify"}) IN
+  IF a.op \in {"sign", "verify"} /\ \E i \in 1..Len(keyCalls) : keyCalls[i].content # Expected(obs.post, a, payloadName)
+  THEN {"C02:key-input-is-not-the-sig-structure-over-the-current-fields", "C03:key-input-is-not-the-sig-structure-over-the-current-fields"} ELSE {}
 RECURSIVE Walk(_, _, _, _, _, _)
 Walk(e, k, o, w, assoc, lastOut) ==
   IF k > Len(e.acts) THEN {} ELSE
@@ -82,7 +93,7 @@ Walk(e, k, o, w, assoc, lastOut) ==
       o2 == IF ObjKind = "sig" THEN [o2raw EXCEPT !.payload = IF a.op = "edit" /\ a.what = "payload" THEN a.vp ELSE o.payload] ELSE o2raw
       out2 == IF a.op \in {"marshal", "rewire"} /\ obs.res = "ok" /\ ~obs.outnil THEN obs.out ELSE lastOut
       w2 == AbsWire(out2, assoc2)
-  IN (IF obs.res = "panic" THEN {"C06:panic"} ELSE Judge(a, o, w, obs.res, o2, w2))
+  IN (IF obs.res = "panic" THEN {"C06:panic"} ELSE Judge(a, o, w, obs.res, o2, w2) \cup StructFails(a, obs, o.payload))
      \cup Walk(e, k + 1, o2, w2, assoc2, out2)
 
 Fails(e) == Walk(e, 1, AbsObj(e.obs[1].post, {}), NoWire, {}, <<>>)
